@@ -1,10 +1,11 @@
 """C02 - every backend behaves like one simple per-bucket event list under any history."""
 S = "aw_datastore.storages.sqlite.SqliteStorage."
+D = "aw_datastore.datastore."
 PROP = dict(
     id="C02",
     level="other",
-    contract_modules=["contracts.models", "contracts.sqlite"],
-    spec_modules=["contracts.sqlite"],
+    contract_modules=["contracts.models", "contracts.sqlite", "contracts.datastore"],
+    spec_modules=["contracts.sqlite", "contracts.datastore"],
     functions=[dict(fn=S + "delete", rt_skip=True),
                dict(fn=S + "replace", rt_skip=True),
                dict(fn=S + "replace_last", rt_skip=True),
@@ -13,12 +14,20 @@ PROP = dict(
                dict(fn=S + "get_event", rt_skip=True),
                dict(fn=S + "get_events", rt_skip=True),
                dict(fn=S + "get_eventcount", rt_skip=True),
-               dict(fn="aw_datastore.storages.sqlite._rows_to_events", rt_skip=True)],
+               dict(fn="aw_datastore.storages.sqlite._rows_to_events", rt_skip=True),
+               dict(fn=D + "Bucket.delete", rt_skip=True),
+               dict(fn=D + "Bucket.replace", rt_skip=True),
+               dict(fn=D + "Bucket.replace_last", rt_skip=True),
+               dict(fn=D + "Bucket.get_by_id", rt_skip=True),
+               dict(fn=D + "Bucket.insert", contract_key=D + "Bucket.insert:one", rt_skip=True),
+               dict(fn=D + "Bucket.insert", contract_key=D + "Bucket.insert:many", rt_skip=True),
+               dict(fn=D + "Datastore.__getitem__", rt_skip=True),
+               dict(fn=S + "buckets", rt_skip=True)],
     timeout_s=20,
     extra=[lambda run: run.storage_histories("C02")],
     technique="run-time refinement check of the real back ends against a reference list over random histories (bounded); "
               "with the sqlite methods proved against contracts over the table state (SQL text parsed from the source)",
-    explanation="deductive (sqlite): delete removes exactly the addressed live event of the addressed bucket and nothing else; replace rewrites exactly that row; replace_last rewrites exactly the row a limit-1 read returns (greatest (starttime, endtime, id)), keeping id and bucket; insert_one / insert_many add rows with ids above the high-water mark (never reused: the mark never decreases in any method) and upsert by the last event carrying each id; get_event / get_events / get_eventcount describe exactly the live rows of the bucket - each as a postcondition over the whole table state (every other row of every bucket unchanged), proved from the SQL text in the source under the relational semantics of pyvc/sqlsem.py. " 
+    explanation="deductive (sqlite): delete removes exactly the addressed live event of the addressed bucket and nothing else; replace rewrites exactly that row; replace_last rewrites exactly the row a limit-1 read returns (greatest (starttime, endtime, id)), keeping id and bucket; insert_one / insert_many add rows with ids above the high-water mark (never reused: the mark never decreases in any method) and upsert by the last event carrying each id; get_event / get_events / get_eventcount describe exactly the live rows of the bucket - each as a postcondition over the whole table state (every other row of every bucket unchanged), proved from the SQL text in the source under the relational semantics of pyvc/sqlsem.py. At the API level (sqlite configuration) Bucket.insert / delete / replace / replace_last / get_by_id and Datastore.__getitem__ are proved to carry exactly the storage method's postcondition for the handle's own bucket id. " 
                 "bounded: random histories of insert / bulk upsert / replace / replace-last / delete / reads on memory, sqlite and "
                 "peewee are compared, after every operation, with a plain per-bucket reference list (contents by id, lookup-by-id, "
                 "counts, metadata); replace-last must rewrite exactly the event a limit-1 read returned immediately before.",
